@@ -569,109 +569,109 @@ macro_rules! step {
 const STEP_STUBS: &str = "Num::add,Num::mul->value models; BigNum::mul,div,new->one-limb models; BigNum::to_string_base->one-digit model; process::exit->checking stub";
 
 // ---- C01 grid (generated by the table in notes; every value symbolic, structure concrete) ----
-// @h prop=C01 unwind=10 rec=2 cutfmt=1 uw=same_output.0:25;exit_model.0:25;exit.0:25;push.0:17;write.0:17 timeout=1200 what=형:push_h*d_to_selected_stack_3
+// @h prop=C01 unwind=10 rec=2 cutfmt=1 uw=same_output.0:25;exit_model.0:25;exit.0:25;push.0:17;write.0:17 timeout=3600 what=형:push_h*d_to_selected_stack_3
 step!(s_push_3, Cfg { kind: 0, h: 2, d: 3, depth: [0, 0, 0, 1, 0, 0], ..CFG0 });
-// @h prop=C01 unwind=10 rec=2 cutfmt=1 uw=same_output.0:25;exit_model.0:25;exit.0:25;push.0:17;write.0:17 timeout=1200 what=형_with_zero_dots_pushes_0_to_empty_stack
+// @h prop=C01 unwind=10 rec=2 cutfmt=1 uw=same_output.0:25;exit_model.0:25;exit.0:25;push.0:17;write.0:17 timeout=3600 what=형_with_zero_dots_pushes_0_to_empty_stack
 step!(s_push_empty, Cfg { kind: 0, h: 3, d: 0, depth: [0, 0, 0, 0, 0, 0], ..CFG0 });
-// @h prop=C01 unwind=10 rec=2 cutfmt=1 uw=same_output.0:25;exit_model.0:25;exit.0:25;push.0:17;write.0:17 timeout=1200 what=항:1_operand_3->4
+// @h prop=C01 unwind=10 rec=2 cutfmt=1 uw=same_output.0:25;exit_model.0:25;exit.0:25;push.0:17;write.0:17 timeout=3600 what=항:1_operand_3->4
 step!(s_add1, Cfg { kind: 1, h: 1, d: 4, depth: [0, 0, 0, 2, 0, 0], ..CFG0 });
-// @h prop=C01 unwind=10 rec=2 cutfmt=1 uw=same_output.0:25;exit_model.0:25;exit.0:25;push.0:17;write.0:17 timeout=1200 what=항:2_operands_3->4
+// @h prop=C01 unwind=10 rec=2 cutfmt=1 uw=same_output.0:25;exit_model.0:25;exit.0:25;push.0:17;write.0:17 timeout=3600 what=항:2_operands_3->4
 step!(s_add2_3to4, Cfg { kind: 1, h: 2, d: 4, depth: [0, 0, 0, 3, 1, 0], ..CFG0 });
-// @h prop=C01 unwind=10 rec=2 cutfmt=1 uw=same_output.0:25;exit_model.0:25;exit.0:25;push.0:17;write.0:17 timeout=1200 what=항:3_operands,target=selected_stack
+// @h prop=C01 unwind=10 rec=2 cutfmt=1 uw=same_output.0:25;exit_model.0:25;exit.0:25;push.0:17;write.0:17 timeout=3600 what=항:3_operands,target=selected_stack
 step!(s_add3_same, Cfg { kind: 1, h: 3, d: 3, depth: [0, 0, 0, 3, 0, 0], ..CFG0 });
-// @h prop=C01 unwind=10 rec=2 cutfmt=1 uw=same_output.0:25;exit_model.0:25;exit.0:25;push.0:17;write.0:17 timeout=1200 what=항:more_operands_than_elements->NaN_sum
+// @h prop=C01 unwind=10 rec=2 cutfmt=1 uw=same_output.0:25;exit_model.0:25;exit.0:25;push.0:17;write.0:17 timeout=3600 what=항:more_operands_than_elements->NaN_sum
 step!(s_add_underflow, Cfg { kind: 1, h: 2, d: 4, depth: [0, 0, 0, 1, 1, 0], ..CFG0 });
-// @h prop=C01 unwind=10 rec=2 cutfmt=1 uw=same_output.0:25;exit_model.0:25;exit.0:25;push.0:17;write.0:17 timeout=1200 what=항:pop_from_empty->NaN,not_pushed_to_empty_target
+// @h prop=C01 unwind=10 rec=2 cutfmt=1 uw=same_output.0:25;exit_model.0:25;exit.0:25;push.0:17;write.0:17 timeout=3600 what=항:pop_from_empty->NaN,not_pushed_to_empty_target
 step!(s_add_empty, Cfg { kind: 1, h: 1, d: 4, depth: [0, 0, 0, 0, 0, 0], ..CFG0 });
-// @h prop=C01 unwind=10 rec=2 cutfmt=1 uw=same_output.0:25;exit_model.0:25;exit.0:25;push.0:17;write.0:17 timeout=1200 what=핫:2_operands_3->5
+// @h prop=C01 unwind=10 rec=2 cutfmt=1 uw=same_output.0:25;exit_model.0:25;exit.0:25;push.0:17;write.0:17 timeout=3600 what=핫:2_operands_3->5
 step!(s_mul2, Cfg { kind: 2, h: 2, d: 5, depth: [0, 0, 0, 2, 0, 1], ..CFG0 });
-// @h prop=C01 unwind=10 rec=2 cutfmt=1 uw=same_output.0:25;exit_model.0:25;exit.0:25;push.0:17;write.0:17 timeout=1200 what=핫:3_operands_same_stack
+// @h prop=C01 unwind=10 rec=2 cutfmt=1 uw=same_output.0:25;exit_model.0:25;exit.0:25;push.0:17;write.0:17 timeout=3600 what=핫:3_operands_same_stack
 step!(s_mul3, Cfg { kind: 2, h: 3, d: 3, depth: [0, 0, 0, 3, 0, 0], ..CFG0 });
-// @h prop=C01 unwind=10 rec=2 cutfmt=1 uw=same_output.0:25;exit_model.0:25;exit.0:25;push.0:17;write.0:17 timeout=1200 what=흣:1_operand
+// @h prop=C01 unwind=10 rec=2 cutfmt=1 uw=same_output.0:25;exit_model.0:25;exit.0:25;push.0:17;write.0:17 timeout=3600 what=흣:1_operand
 step!(s_neg1, Cfg { kind: 3, h: 1, d: 4, depth: [0, 0, 0, 2, 0, 0], ..CFG0 });
-// @h prop=C01 unwind=10 rec=2 cutfmt=1 uw=same_output.0:25;exit_model.0:25;exit.0:25;push.0:17;write.0:17 timeout=1200 what=흣:2_operands,restored_in_original_order
+// @h prop=C01 unwind=10 rec=2 cutfmt=1 uw=same_output.0:25;exit_model.0:25;exit.0:25;push.0:17;write.0:17 timeout=3600 what=흣:2_operands,restored_in_original_order
 step!(s_neg2_3to4, Cfg { kind: 3, h: 2, d: 4, depth: [0, 0, 0, 2, 0, 0], ..CFG0 });
-// @h prop=C01 unwind=10 rec=2 cutfmt=1 uw=same_output.0:25;exit_model.0:25;exit.0:25;push.0:17;write.0:17 timeout=1200 tier=thorough kind=stretch what=흣:3_operands,target=selected_stack
+// @h prop=C01 unwind=10 rec=2 cutfmt=1 uw=same_output.0:25;exit_model.0:25;exit.0:25;push.0:17;write.0:17 timeout=3600 tier=thorough kind=stretch what=흣:3_operands,target=selected_stack
 step!(s_neg3_same, Cfg { kind: 3, h: 3, d: 3, depth: [0, 0, 0, 3, 0, 0], ..CFG0 });
-// @h prop=C01 unwind=10 rec=2 cutfmt=1 uw=same_output.0:25;exit_model.0:25;exit.0:25;push.0:17;write.0:17 timeout=1200 what=흣:pops_beyond_the_bottom(NaN_not_restored_onto_empty)
+// @h prop=C01 unwind=10 rec=2 cutfmt=1 uw=same_output.0:25;exit_model.0:25;exit.0:25;push.0:17;write.0:17 timeout=3600 what=흣:pops_beyond_the_bottom(NaN_not_restored_onto_empty)
 step!(s_neg_underflow, Cfg { kind: 3, h: 2, d: 4, depth: [0, 0, 0, 1, 0, 0], ..CFG0 });
-// @h prop=C01 unwind=10 rec=2 cutfmt=1 uw=same_output.0:25;exit_model.0:25;exit.0:25;push.0:17;write.0:17 timeout=1200 what=흡:1_operand,small_fractions
+// @h prop=C01 unwind=10 rec=2 cutfmt=1 uw=same_output.0:25;exit_model.0:25;exit.0:25;push.0:17;write.0:17 timeout=3600 what=흡:1_operand,small_fractions
 step!(s_inv1, Cfg { kind: 4, h: 1, d: 4, dom: Dom::Frac, depth: [0, 0, 0, 2, 0, 0], ..CFG0 });
-// @h prop=C01 unwind=10 rec=2 cutfmt=1 uw=same_output.0:25;exit_model.0:25;exit.0:25;push.0:17;write.0:17 timeout=900 what=흡:2_operands,small_fractions,restored_in_order
+// @h prop=C01 unwind=10 rec=2 cutfmt=1 uw=same_output.0:25;exit_model.0:25;exit.0:25;push.0:17;write.0:17 timeout=2700 what=흡:2_operands,small_fractions,restored_in_order
 step!(s_inv2, Cfg { kind: 4, h: 2, d: 4, dom: Dom::Frac, depth: [0, 0, 0, 2, 0, 0], ..CFG0 });
-// @h prop=C01 unwind=10 rec=2 cutfmt=1 uw=same_output.0:25;exit_model.0:25;exit.0:25;push.0:17;write.0:17 timeout=1200 what=흑:copy_top_once_to_4,select_4
+// @h prop=C01 unwind=10 rec=2 cutfmt=1 uw=same_output.0:25;exit_model.0:25;exit.0:25;push.0:17;write.0:17 timeout=3600 what=흑:copy_top_once_to_4,select_4
 step!(s_dup1, Cfg { kind: 5, h: 1, d: 4, depth: [0, 0, 0, 2, 1, 0], ..CFG0 });
-// @h prop=C01 unwind=10 rec=2 cutfmt=1 uw=same_output.0:25;exit_model.0:25;exit.0:25;push.0:17;write.0:17 timeout=1200 what=흑:copy_twice_to_5,select_5
+// @h prop=C01 unwind=10 rec=2 cutfmt=1 uw=same_output.0:25;exit_model.0:25;exit.0:25;push.0:17;write.0:17 timeout=3600 what=흑:copy_twice_to_5,select_5
 step!(s_dup2, Cfg { kind: 5, h: 2, d: 5, depth: [0, 0, 0, 1, 0, 0], ..CFG0 });
-// @h prop=C01 unwind=10 rec=2 cutfmt=1 uw=same_output.0:25;exit_model.0:25;exit.0:25;push.0:17;write.0:17 timeout=1200 what=흑:empty_selected_stack(NaN)
+// @h prop=C01 unwind=10 rec=2 cutfmt=1 uw=same_output.0:25;exit_model.0:25;exit.0:25;push.0:17;write.0:17 timeout=3600 what=흑:empty_selected_stack(NaN)
 step!(s_dup_empty, Cfg { kind: 5, h: 1, d: 4, depth: [0, 0, 0, 0, 1, 0], ..CFG0 });
-// @h prop=C01 unwind=10 rec=2 cutfmt=1 uw=same_output.0:25;exit_model.0:25;exit.0:25;push.0:17;write.0:17 timeout=1200 tier=thorough kind=stretch what=흑:target=selected_stack
+// @h prop=C01 unwind=10 rec=2 cutfmt=1 uw=same_output.0:25;exit_model.0:25;exit.0:25;push.0:17;write.0:17 timeout=3600 tier=thorough kind=stretch what=흑:target=selected_stack
 step!(s_dup_same, Cfg { kind: 5, h: 2, d: 3, depth: [0, 0, 0, 1, 0, 0], ..CFG0 });
-// @h prop=C01 unwind=10 rec=2 cutfmt=1 uw=same_output.0:25;exit_model.0:25;exit.0:25;push.0:17;write.0:17 timeout=1200 what=heart_not_registered:registers_label,continues
+// @h prop=C01 unwind=10 rec=2 cutfmt=1 uw=same_output.0:25;exit_model.0:25;exit.0:25;push.0:17;write.0:17 timeout=3600 what=heart_not_registered:registers_label,continues
 step!(s_heart_new, Cfg { kind: 0, h: 1, d: 2, area: 1, depth: [0, 0, 0, 1, 0, 0], ..CFG0 });
-// @h prop=C01 unwind=10 rec=2 cutfmt=1 uw=same_output.0:25;exit_model.0:25;exit.0:25;push.0:17;write.0:17 timeout=1200 what=heart_with_1_symbolic_label_entry:jump_iff_registered_elsewhere,last_jump_source_set
+// @h prop=C01 unwind=10 rec=2 cutfmt=1 uw=same_output.0:25;exit_model.0:25;exit.0:25;push.0:17;write.0:17 timeout=3600 what=heart_with_1_symbolic_label_entry:jump_iff_registered_elsewhere,last_jump_source_set
 step!(s_heart_tab1, Cfg { kind: 0, h: 1, d: 2, area: 1, npts: 1, depth: [0, 0, 0, 1, 0, 0], ..CFG0 });
-// @h prop=C01 unwind=10 rec=2 cutfmt=1 uw=same_output.0:25;exit_model.0:25;exit.0:25;push.0:17;write.0:17 timeout=1200 what=heart_with_2_symbolic_label_entries
+// @h prop=C01 unwind=10 rec=2 cutfmt=1 uw=same_output.0:25;exit_model.0:25;exit.0:25;push.0:17;write.0:17 timeout=3600 what=heart_with_2_symbolic_label_entries
 step!(s_heart_tab2, Cfg { kind: 0, h: 1, d: 2, area: 1, npts: 2, latest: true, depth: [0, 0, 0, 1, 0, 0], ..CFG0 });
-// @h prop=C01 unwind=10 rec=2 cutfmt=1 uw=same_output.0:25;exit_model.0:25;exit.0:25;push.0:17;write.0:17 timeout=1200 what=white_heart_without_last_jump_source:continues
+// @h prop=C01 unwind=10 rec=2 cutfmt=1 uw=same_output.0:25;exit_model.0:25;exit.0:25;push.0:17;write.0:17 timeout=3600 what=white_heart_without_last_jump_source:continues
 step!(s_white_none, Cfg { kind: 0, h: 1, d: 2, area: 2, depth: [0, 0, 0, 1, 0, 0], ..CFG0 });
-// @h prop=C01 unwind=10 rec=2 cutfmt=1 uw=same_output.0:25;exit_model.0:25;exit.0:25;push.0:17;write.0:17 timeout=1200 what=white_heart:returns_to_last_jump_source
+// @h prop=C01 unwind=10 rec=2 cutfmt=1 uw=same_output.0:25;exit_model.0:25;exit.0:25;push.0:17;write.0:17 timeout=3600 what=white_heart:returns_to_last_jump_source
 step!(s_white_some, Cfg { kind: 0, h: 1, d: 2, area: 2, latest: true, npts: 1, depth: [0, 0, 0, 1, 0, 0], ..CFG0 });
-// @h prop=C01 unwind=10 rec=3 cutfmt=1 uw=same_output.0:25;exit_model.0:25;exit.0:25;push.0:17;write.0:17 timeout=1200 what=?:left_iff_popped<count(symbolic_count)
+// @h prop=C01 unwind=10 rec=3 cutfmt=1 uw=same_output.0:25;exit_model.0:25;exit.0:25;push.0:17;write.0:17 timeout=3600 what=?:left_iff_popped<count(symbolic_count)
 step!(s_q_3, Cfg { kind: 0, h: 1, d: 2, area: 3, npts: 1, depth: [0, 0, 0, 2, 0, 0], ..CFG0 });
-// @h prop=C01 unwind=10 rec=3 cutfmt=1 uw=same_output.0:25;exit_model.0:25;exit.0:25;push.0:17;write.0:17 timeout=1200 what=!:left_iff_popped==count
+// @h prop=C01 unwind=10 rec=3 cutfmt=1 uw=same_output.0:25;exit_model.0:25;exit.0:25;push.0:17;write.0:17 timeout=3600 what=!:left_iff_popped==count
 step!(s_e_3, Cfg { kind: 1, h: 1, d: 4, area: 4, npts: 2, depth: [0, 0, 0, 3, 0, 0], ..CFG0 });
-// @h prop=C01 unwind=10 rec=4 cutfmt=1 uw=same_output.0:25;exit_model.0:25;exit.0:25;push.0:17;write.0:17 timeout=1200 what=[a!b]?c:two_pops
+// @h prop=C01 unwind=10 rec=4 cutfmt=1 uw=same_output.0:25;exit_model.0:25;exit.0:25;push.0:17;write.0:17 timeout=3600 what=[a!b]?c:two_pops
 step!(s_qe_3, Cfg { kind: 0, h: 1, d: 2, area: 5, npts: 1, depth: [0, 0, 0, 3, 0, 0], ..CFG0 });
-// @h prop=C01 unwind=10 rec=4 cutfmt=1 uw=same_output.0:25;exit_model.0:25;exit.0:25;push.0:17;write.0:17 timeout=1200 what=_?[a?white]:right_nesting,pops_until_leaf
+// @h prop=C01 unwind=10 rec=4 cutfmt=1 uw=same_output.0:25;exit_model.0:25;exit.0:25;push.0:17;write.0:17 timeout=3600 what=_?[a?white]:right_nesting,pops_until_leaf
 step!(s_qq_3, Cfg { kind: 0, h: 1, d: 2, area: 6, npts: 1, latest: true, depth: [0, 0, 0, 2, 0, 0], ..CFG0 });
-// @h prop=C01 unwind=10 rec=4 cutfmt=1 uw=same_output.0:25;exit_model.0:25;exit.0:25;push.0:17;write.0:17 timeout=1200 what=_![h!_]:area_pops_from_empty(NaN->right)
+// @h prop=C01 unwind=10 rec=4 cutfmt=1 uw=same_output.0:25;exit_model.0:25;exit.0:25;push.0:17;write.0:17 timeout=3600 what=_![h!_]:area_pops_from_empty(NaN->right)
 step!(s_ee_empty, Cfg { kind: 0, h: 1, d: 2, area: 7, depth: [0, 0, 0, 0, 0, 0], ..CFG0 });
-// @h prop=C01 unwind=10 rec=3 cutfmt=1 uw=same_output.0:25;exit_model.0:25;exit.0:25;push.0:17;write.0:17 timeout=1200 what=?_against_fractions
+// @h prop=C01 unwind=10 rec=3 cutfmt=1 uw=same_output.0:25;exit_model.0:25;exit.0:25;push.0:17;write.0:17 timeout=3600 what=?_against_fractions
 step!(s_q_frac, Cfg { kind: 0, h: 1, d: 2, area: 3, dom: Dom::Frac, depth: [0, 0, 0, 2, 0, 0], ..CFG0 });
-// @h prop=C01 unwind=10 rec=3 cutfmt=1 uw=same_output.0:25;exit_model.0:25;exit.0:25;push.0:17;write.0:17 timeout=1200 what=흑_then_?:area_pops_from_the_NEWLY_selected_stack
+// @h prop=C01 unwind=10 rec=3 cutfmt=1 uw=same_output.0:25;exit_model.0:25;exit.0:25;push.0:17;write.0:17 timeout=3600 what=흑_then_?:area_pops_from_the_NEWLY_selected_stack
 step!(s_dup_area, Cfg { kind: 5, h: 1, d: 4, area: 3, depth: [0, 0, 0, 2, 2, 0], ..CFG0 });
-// @h prop=C01 unwind=10 rec=2 cutfmt=num uw=same_output.0:25;exit_model.0:25;exit.0:25;push.0:17;write.0:17 timeout=1200 what=항_to_stdout:code_point_0..0x120000->UTF-8_or_encoding_error
+// @h prop=C01 unwind=10 rec=2 cutfmt=num uw=same_output.0:25;exit_model.0:25;exit.0:25;push.0:17;write.0:17 timeout=3600 what=항_to_stdout:code_point_0..0x120000->UTF-8_or_encoding_error
 step!(s_out_char, Cfg { kind: 1, h: 1, d: 1, dom: Dom::Scalar, depth: [0, 0, 0, 2, 0, 0], ..CFG0 });
-// @h prop=C01 unwind=10 rec=2 cutfmt=num uw=same_output.0:25;exit_model.0:25;exit.0:25;push.0:17;write.0:17 timeout=1200 what=항_to_stderr:same_on_the_error_stream
+// @h prop=C01 unwind=10 rec=2 cutfmt=num uw=same_output.0:25;exit_model.0:25;exit.0:25;push.0:17;write.0:17 timeout=3600 what=항_to_stderr:same_on_the_error_stream
 step!(s_err_char, Cfg { kind: 1, h: 1, d: 2, dom: Dom::Scalar, depth: [0, 0, 0, 2, 0, 0], ..CFG0 });
-// @h prop=C01 unwind=10 rec=2 cutfmt=num uw=same_output.0:25;exit_model.0:25;exit.0:25;push.0:17;write.0:17 timeout=1200 what=항_to_stdout:non-negative_fraction->code_point_of_floor
+// @h prop=C01 unwind=10 rec=2 cutfmt=num uw=same_output.0:25;exit_model.0:25;exit.0:25;push.0:17;write.0:17 timeout=3600 what=항_to_stdout:non-negative_fraction->code_point_of_floor
 step!(s_out_frac, Cfg { kind: 1, h: 1, d: 1, dom: Dom::ScalarFrac, depth: [0, 0, 0, 1, 0, 0], ..CFG0 });
-// @h prop=C01 unwind=10 rec=2 cutfmt=num uw=same_output.0:25;exit_model.0:25;exit.0:25;push.0:17;write.0:17 timeout=1200 what=항_to_stdout:negative->text_of_negated_value,NaN->NaN_text
+// @h prop=C01 unwind=10 rec=2 cutfmt=num uw=same_output.0:25;exit_model.0:25;exit.0:25;push.0:17;write.0:17 timeout=3600 what=항_to_stdout:negative->text_of_negated_value,NaN->NaN_text
 step!(s_out_neg, Cfg { kind: 1, h: 1, d: 1, dom: Dom::Digit, depth: [0, 0, 0, 2, 0, 0], ..CFG0 });
-// @h prop=C01 unwind=10 rec=2 cutfmt=1 uw=same_output.0:25;exit_model.0:25;exit.0:25;push.0:17;write.0:17 timeout=1200 what=형_with_stdout_selected:prints_chr(h*d)
+// @h prop=C01 unwind=10 rec=2 cutfmt=1 uw=same_output.0:25;exit_model.0:25;exit.0:25;push.0:17;write.0:17 timeout=3600 what=형_with_stdout_selected:prints_chr(h*d)
 step!(s_push_out, Cfg { kind: 0, h: 13, d: 5, cur: 1, depth: [0, 0, 0, 0, 0, 0], ..CFG0 });
-// @h prop=C01 unwind=10 rec=2 cutfmt=num uw=same_output.0:25;exit_model.0:25;exit.0:25;push.0:17;write.0:17 timeout=1200 what=흣_to_stderr:negated_value_text_or_char
+// @h prop=C01 unwind=10 rec=2 cutfmt=num uw=same_output.0:25;exit_model.0:25;exit.0:25;push.0:17;write.0:17 timeout=3600 what=흣_to_stderr:negated_value_text_or_char
 step!(s_neg_out, Cfg { kind: 3, h: 1, d: 2, dom: Dom::Digit, depth: [0, 0, 0, 1, 0, 0], ..CFG0 });
-// @h prop=C01 unwind=10 rec=2 cutfmt=num uw=same_output.0:25;exit_model.0:25;exit.0:25;push.0:17;write.0:17 timeout=1200 tier=thorough kind=stretch what=흑_to_stdout_twice,then_stdout_selected
+// @h prop=C01 unwind=10 rec=2 cutfmt=num uw=same_output.0:25;exit_model.0:25;exit.0:25;push.0:17;write.0:17 timeout=3600 tier=thorough kind=stretch what=흑_to_stdout_twice,then_stdout_selected
 step!(s_dup_out, Cfg { kind: 5, h: 2, d: 1, dom: Dom::Scalar, depth: [0, 0, 0, 1, 0, 0], ..CFG0 });
-// @h prop=C01 unwind=10 rec=2 cutfmt=1 uw=same_output.0:25;exit_model.0:25;exit.0:25;push.0:17;write.0:17 timeout=1200 what=항_with_stdout_selected:exit_0,both_streams_flushed
+// @h prop=C01 unwind=10 rec=2 cutfmt=1 uw=same_output.0:25;exit_model.0:25;exit.0:25;push.0:17;write.0:17 timeout=3600 what=항_with_stdout_selected:exit_0,both_streams_flushed
 step!(s_exit0_add, Cfg { kind: 1, h: 1, d: 3, cur: 1, depth: [0, 0, 0, 1, 0, 0], ..CFG0 });
-// @h prop=C01 unwind=10 rec=2 cutfmt=1 uw=same_output.0:25;exit_model.0:25;exit.0:25;push.0:17;write.0:17 timeout=1200 what=핫_with_stderr_selected:exit_1
+// @h prop=C01 unwind=10 rec=2 cutfmt=1 uw=same_output.0:25;exit_model.0:25;exit.0:25;push.0:17;write.0:17 timeout=3600 what=핫_with_stderr_selected:exit_1
 step!(s_exit1_mul, Cfg { kind: 2, h: 2, d: 3, cur: 2, depth: [0, 0, 0, 1, 0, 0], ..CFG0 });
-// @h prop=C01 unwind=10 rec=2 cutfmt=1 uw=same_output.0:25;exit_model.0:25;exit.0:25;push.0:17;write.0:17 timeout=1200 what=흣_with_stdout_selected:exit_0_before_anything_is_restored
+// @h prop=C01 unwind=10 rec=2 cutfmt=1 uw=same_output.0:25;exit_model.0:25;exit.0:25;push.0:17;write.0:17 timeout=3600 what=흣_with_stdout_selected:exit_0_before_anything_is_restored
 step!(s_exit_neg, Cfg { kind: 3, h: 2, d: 3, cur: 1, depth: [0, 0, 0, 1, 0, 0], ..CFG0 });
-// @h prop=C01 unwind=10 rec=2 cutfmt=1 uw=same_output.0:25;exit_model.0:25;exit.0:25;push.0:17;write.0:17 timeout=1200 what=흑_with_stderr_selected:exit_1
+// @h prop=C01 unwind=10 rec=2 cutfmt=1 uw=same_output.0:25;exit_model.0:25;exit.0:25;push.0:17;write.0:17 timeout=3600 what=흑_with_stderr_selected:exit_1
 step!(s_exit_dup, Cfg { kind: 5, h: 1, d: 3, cur: 2, depth: [0, 0, 0, 1, 0, 0], ..CFG0 });
-// @h prop=C01 unwind=10 rec=3 cutfmt=num uw=same_output.0:25;exit_model.0:25;exit.0:25;push.0:17;write.0:17 timeout=1200 what=형?_with_stdout_selected:prints,then_area_pop_exits_0_with_the_output_delivered
+// @h prop=C01 unwind=10 rec=3 cutfmt=num uw=same_output.0:25;exit_model.0:25;exit.0:25;push.0:17;write.0:17 timeout=3600 what=형?_with_stdout_selected:prints,then_area_pop_exits_0_with_the_output_delivered
 step!(s_exit_area, Cfg { kind: 0, h: 8, d: 8, cur: 1, area: 3, depth: [0, 0, 0, 1, 0, 0], ..CFG0 });
-// @h prop=C01 unwind=10 rec=3 cutfmt=num uw=same_output.0:25;exit_model.0:25;exit.0:25;push.0:17;write.0:17 timeout=1200 what=흑_selects_stderr,area_pop_exits_1(after_printing_the_copies)
+// @h prop=C01 unwind=10 rec=3 cutfmt=num uw=same_output.0:25;exit_model.0:25;exit.0:25;push.0:17;write.0:17 timeout=3600 what=흑_selects_stderr,area_pop_exits_1(after_printing_the_copies)
 step!(s_exit_dup_area, Cfg { kind: 5, h: 1, d: 2, area: 4, dom: Dom::Digit, depth: [0, 0, 0, 2, 0, 0], ..CFG0 });
-// @h prop=C01 unwind=10 rec=2 cutfmt=1 uw=same_output.0:25;exit_model.0:25;exit.0:25;push.0:17;write.0:17 timeout=1200 what=항_with_stdin_selected:line_of_2_chars(1-byte,3-byte)_or_EOF;first_char_popped,rest_buffered
+// @h prop=C01 unwind=10 rec=2 cutfmt=1 uw=same_output.0:25;exit_model.0:25;exit.0:25;push.0:17;write.0:17 timeout=3600 what=항_with_stdin_selected:line_of_2_chars(1-byte,3-byte)_or_EOF;first_char_popped,rest_buffered
 step!(s_in_13, Cfg { kind: 1, h: 1, d: 3, cur: 0, line: Some(2), classes: [1, 3, 1, 1], depth: [0, 0, 0, 1, 0, 0], ..CFG0 });
-// @h prop=C01 unwind=10 rec=2 cutfmt=1 uw=same_output.0:25;exit_model.0:25;exit.0:25;push.0:17;write.0:17 timeout=1200 what=stdin:4-byte_and_2-byte_characters
+// @h prop=C01 unwind=10 rec=2 cutfmt=1 uw=same_output.0:25;exit_model.0:25;exit.0:25;push.0:17;write.0:17 timeout=3600 what=stdin:4-byte_and_2-byte_characters
 step!(s_in_42, Cfg { kind: 1, h: 1, d: 3, cur: 0, line: Some(2), classes: [4, 2, 1, 1], depth: [0, 0, 0, 0, 0, 0], ..CFG0 });
-// @h prop=C01 unwind=10 rec=2 cutfmt=1 uw=same_output.0:25;exit_model.0:25;exit.0:25;push.0:17;write.0:17 timeout=1200 tier=thorough kind=stretch what=항_2_operands_from_stdin:second_pop_reads_again->EOF->NaN
+// @h prop=C01 unwind=10 rec=2 cutfmt=1 uw=same_output.0:25;exit_model.0:25;exit.0:25;push.0:17;write.0:17 timeout=3600 tier=thorough kind=stretch what=항_2_operands_from_stdin:second_pop_reads_again->EOF->NaN
 step!(s_in_two_pops, Cfg { kind: 1, h: 2, d: 3, cur: 0, line: Some(1), classes: [3, 1, 1, 1], depth: [0, 0, 0, 0, 0, 0], ..CFG0 });
-// @h prop=C01 unwind=10 rec=2 cutfmt=1 uw=same_output.0:25;exit_model.0:25;exit.0:25;push.0:17;write.0:17 timeout=1200 what=stdin_buffer_not_empty:no_read
+// @h prop=C01 unwind=10 rec=2 cutfmt=1 uw=same_output.0:25;exit_model.0:25;exit.0:25;push.0:17;write.0:17 timeout=3600 what=stdin_buffer_not_empty:no_read
 step!(s_in_buffered, Cfg { kind: 1, h: 1, d: 3, cur: 0, line: Some(1), classes: [1, 1, 1, 1], depth: [1, 0, 0, 0, 0, 0], ..CFG0 });
-// @h prop=C01 unwind=10 rec=3 cutfmt=num uw=same_output.0:25;exit_model.0:25;exit.0:25;push.0:17;write.0:17 timeout=1200 tier=thorough kind=stretch what=흑_selects_stdin,?_area_pops_a_character(or_NaN_at_EOF)
+// @h prop=C01 unwind=10 rec=3 cutfmt=num uw=same_output.0:25;exit_model.0:25;exit.0:25;push.0:17;write.0:17 timeout=3600 tier=thorough kind=stretch what=흑_selects_stdin,?_area_pops_a_character(or_NaN_at_EOF)
 step!(s_in_area, Cfg { kind: 5, h: 1, d: 0, area: 3, line: Some(1), classes: [2, 1, 1, 1], depth: [0, 0, 0, 1, 0, 0], ..CFG0 });
-// @h prop=C01 unwind=10 rec=2 cutfmt=num uw=same_output.0:25;exit_model.0:25;exit.0:25;push.0:17;write.0:17 timeout=1200 tier=thorough kind=stretch what=copy_one_character_stdin->stdout
+// @h prop=C01 unwind=10 rec=2 cutfmt=num uw=same_output.0:25;exit_model.0:25;exit.0:25;push.0:17;write.0:17 timeout=3600 tier=thorough kind=stretch what=copy_one_character_stdin->stdout
 step!(s_in_copy, Cfg { kind: 1, h: 1, d: 1, cur: 0, line: Some(1), classes: [3, 1, 1, 1], depth: [0, 0, 0, 0, 0, 0], ..CFG0 });
 
 // vacuity twin (must FAIL)
-// @h prop=C01 unwind=10 rec=2 cutfmt=1 uw=same_output.0:25;exit_model.0:25;exit.0:25;push.0:17;write.0:17 timeout=1200 kind=twin
+// @h prop=C01 unwind=10 rec=2 cutfmt=1 uw=same_output.0:25;exit_model.0:25;exit.0:25;push.0:17;write.0:17 timeout=3600 kind=twin
 #[cfg_attr(kani, kani::proof)]
 #[cfg_attr(kani, kani::stub(Num::add, m_num_add))]
 #[cfg_attr(kani, kani::stub(Num::mul, m_num_mul))]
@@ -742,17 +742,17 @@ macro_rules! calc {
         }
     };
 }
-// @h prop=C07 unwind=8 rec=3 timeout=600 mem=12 stubs=BigNum::mul,new->one-limb_models what=area::calc_on_[h]?[_]:left_iff_popped<count;integers_-128..127_or_NaN,count_0..255
+// @h prop=C07 unwind=8 rec=3 timeout=2400 mem=12 stubs=BigNum::mul,new->one-limb_models what=area::calc_on_[h]?[_]:left_iff_popped<count;integers_-128..127_or_NaN,count_0..255
 calc!(calc_q_int, 3, Dom::I8);
-// @h prop=C07 unwind=8 rec=3 timeout=600 mem=12 stubs=BigNum::mul,new->one-limb_models what=area::calc_on_[h]![h]:left_iff_popped==count
+// @h prop=C07 unwind=8 rec=3 timeout=2400 mem=12 stubs=BigNum::mul,new->one-limb_models what=area::calc_on_[h]![h]:left_iff_popped==count
 calc!(calc_e_int, 4, Dom::I8);
-// @h prop=C07 unwind=8 rec=3 timeout=900 mem=12 stubs=BigNum::mul,new->one-limb_models what=area::calc_on_[h]?[_]_with_small_fractions
+// @h prop=C07 unwind=8 rec=3 timeout=2700 mem=12 stubs=BigNum::mul,new->one-limb_models what=area::calc_on_[h]?[_]_with_small_fractions
 calc!(calc_q_frac, 3, Dom::Frac);
-// @h prop=C07 unwind=8 rec=4 timeout=900 mem=12 stubs=BigNum::mul,new->one-limb_models what=area::calc_on_[[h]![h]]?[h]:nested,two_pops
+// @h prop=C07 unwind=8 rec=4 timeout=2700 mem=12 stubs=BigNum::mul,new->one-limb_models what=area::calc_on_[[h]![h]]?[h]:nested,two_pops
 calc!(calc_qe_int, 5, Dom::I8);
-// @h prop=C07 unwind=8 rec=4 timeout=900 mem=12 stubs=BigNum::mul,new->one-limb_models what=area::calc_on__?[[h]?[white]]:right_nesting
+// @h prop=C07 unwind=8 rec=4 timeout=2700 mem=12 stubs=BigNum::mul,new->one-limb_models what=area::calc_on__?[[h]?[white]]:right_nesting
 calc!(calc_qq_int, 6, Dom::I8);
-// @h prop=C07 unwind=8 rec=4 timeout=900 mem=12 tier=thorough stubs=BigNum::mul,new->one-limb_models what=area::calc_on__![[h]!_]_with_fractions
+// @h prop=C07 unwind=8 rec=4 timeout=2700 mem=12 tier=thorough stubs=BigNum::mul,new->one-limb_models what=area::calc_on__![[h]!_]_with_fractions
 calc!(calc_ee_frac, 7, Dom::Frac);
 
 // ===========================================================================
@@ -761,23 +761,23 @@ calc!(calc_ee_frac, 7, Dom::Frac);
 // its code point, NaN exactly at end of input.  Output: every non-negative value below
 // 0x120000: UTF-8 of the scalar value, or the encoding error for surrogates / >= 0x110000.
 // ===========================================================================
-// @h prop=C14 unwind=10 rec=2 cutfmt=1 uw=same_output.0:25;exit_model.0:25;exit.0:25;push.0:17;write.0:17 timeout=1200 what=stdin_pop:1-byte_character(U+0000..U+007F,incl._line_break)_or_EOF->code_point_or_NaN
+// @h prop=C14 unwind=10 rec=2 cutfmt=1 uw=same_output.0:25;exit_model.0:25;exit.0:25;push.0:17;write.0:17 timeout=3600 what=stdin_pop:1-byte_character(U+0000..U+007F,incl._line_break)_or_EOF->code_point_or_NaN
 step!(u_in_1, Cfg { kind: 1, h: 1, d: 3, cur: 0, line: Some(1), classes: [1, 1, 1, 1], depth: [0, 0, 0, 0, 0, 0], ..CFG0 });
-// @h prop=C14 unwind=10 rec=2 cutfmt=1 uw=same_output.0:25;exit_model.0:25;exit.0:25;push.0:17;write.0:17 timeout=1200 what=stdin_pop:2-byte_character(U+0080..U+07FF)_or_EOF
+// @h prop=C14 unwind=10 rec=2 cutfmt=1 uw=same_output.0:25;exit_model.0:25;exit.0:25;push.0:17;write.0:17 timeout=3600 what=stdin_pop:2-byte_character(U+0080..U+07FF)_or_EOF
 step!(u_in_2, Cfg { kind: 1, h: 1, d: 3, cur: 0, line: Some(1), classes: [2, 1, 1, 1], depth: [0, 0, 0, 0, 0, 0], ..CFG0 });
-// @h prop=C14 unwind=10 rec=2 cutfmt=1 uw=same_output.0:25;exit_model.0:25;exit.0:25;push.0:17;write.0:17 timeout=1200 what=stdin_pop:3-byte_character(U+0800..U+FFFF_without_surrogates)_or_EOF
+// @h prop=C14 unwind=10 rec=2 cutfmt=1 uw=same_output.0:25;exit_model.0:25;exit.0:25;push.0:17;write.0:17 timeout=3600 what=stdin_pop:3-byte_character(U+0800..U+FFFF_without_surrogates)_or_EOF
 step!(u_in_3, Cfg { kind: 1, h: 1, d: 3, cur: 0, line: Some(1), classes: [3, 1, 1, 1], depth: [0, 0, 0, 0, 0, 0], ..CFG0 });
-// @h prop=C14 unwind=10 rec=2 cutfmt=1 uw=same_output.0:25;exit_model.0:25;exit.0:25;push.0:17;write.0:17 timeout=1200 what=stdin_pop:4-byte_character(U+10000..U+10FFFF)_or_EOF
+// @h prop=C14 unwind=10 rec=2 cutfmt=1 uw=same_output.0:25;exit_model.0:25;exit.0:25;push.0:17;write.0:17 timeout=3600 what=stdin_pop:4-byte_character(U+10000..U+10FFFF)_or_EOF
 step!(u_in_4, Cfg { kind: 1, h: 1, d: 3, cur: 0, line: Some(1), classes: [4, 1, 1, 1], depth: [0, 0, 0, 0, 0, 0], ..CFG0 });
-// @h prop=C14 unwind=10 rec=2 cutfmt=1 uw=same_output.0:25;exit_model.0:25;exit.0:25;push.0:17;write.0:17 timeout=900 what=stdin_pop:line_of_3_characters(2-,4-,1-byte):first_popped,others_buffered_in_order
+// @h prop=C14 unwind=10 rec=2 cutfmt=1 uw=same_output.0:25;exit_model.0:25;exit.0:25;push.0:17;write.0:17 timeout=2700 what=stdin_pop:line_of_3_characters(2-,4-,1-byte):first_popped,others_buffered_in_order
 step!(u_in_241, Cfg { kind: 1, h: 1, d: 3, cur: 0, line: Some(3), classes: [2, 4, 1, 1], depth: [0, 0, 0, 0, 0, 0], ..CFG0 });
-// @h prop=C14 unwind=10 rec=2 cutfmt=num uw=same_output.0:25;exit_model.0:25;exit.0:25;push.0:17;write.0:17 timeout=900 what=stdout_push:every_value_0..0x120000->UTF-8_of_the_scalar_value_or_encoding_error
+// @h prop=C14 unwind=10 rec=2 cutfmt=num uw=same_output.0:25;exit_model.0:25;exit.0:25;push.0:17;write.0:17 timeout=2700 what=stdout_push:every_value_0..0x120000->UTF-8_of_the_scalar_value_or_encoding_error
 step!(u_out, Cfg { kind: 1, h: 1, d: 1, dom: Dom::Scalar, depth: [0, 0, 0, 1, 0, 0], ..CFG0 });
-// @h prop=C14 unwind=10 rec=2 cutfmt=num uw=same_output.0:25;exit_model.0:25;exit.0:25;push.0:17;write.0:17 timeout=900 what=stderr_push:same_on_the_error_stream
+// @h prop=C14 unwind=10 rec=2 cutfmt=num uw=same_output.0:25;exit_model.0:25;exit.0:25;push.0:17;write.0:17 timeout=2700 what=stderr_push:same_on_the_error_stream
 step!(u_err, Cfg { kind: 1, h: 1, d: 2, dom: Dom::Scalar, depth: [0, 0, 0, 1, 0, 0], ..CFG0 });
-// @h prop=C14 unwind=10 rec=2 cutfmt=num uw=same_output.0:25;exit_model.0:25;exit.0:25;push.0:17;write.0:17 timeout=900 tier=thorough kind=stretch what=one-character_copy_stdin->stdout_in_a_single_command(3-byte_class)
+// @h prop=C14 unwind=10 rec=2 cutfmt=num uw=same_output.0:25;exit_model.0:25;exit.0:25;push.0:17;write.0:17 timeout=2700 tier=thorough kind=stretch what=one-character_copy_stdin->stdout_in_a_single_command(3-byte_class)
 step!(u_copy_3, Cfg { kind: 1, h: 1, d: 1, cur: 0, line: Some(1), classes: [3, 1, 1, 1], depth: [0, 0, 0, 0, 0, 0], ..CFG0 });
-// @h prop=C14 unwind=10 rec=2 cutfmt=1 uw=same_output.0:25;exit_model.0:25;exit.0:25;push.0:17;write.0:17 timeout=1200 kind=twin
+// @h prop=C14 unwind=10 rec=2 cutfmt=1 uw=same_output.0:25;exit_model.0:25;exit.0:25;push.0:17;write.0:17 timeout=3600 kind=twin
 #[cfg_attr(kani, kani::proof)]
 #[cfg_attr(kani, kani::stub(Num::add, m_num_add))]
 #[cfg_attr(kani, kani::stub(Num::mul, m_num_mul))]
@@ -852,15 +852,15 @@ macro_rules! xstep {
         }
     };
 }
-// @h prop=C12 unwind=10 rec=2 cutfmt=1 uw=execute.0:2;same_output.0:25;exit_model.0:25;exit.0:25;push.0:17;write.0:17 timeout=1200 what=execute():entered_형_command
+// @h prop=C12 unwind=10 rec=2 cutfmt=1 uw=execute.0:2;same_output.0:25;exit_model.0:25;exit.0:25;push.0:17;write.0:17 timeout=3600 what=execute():entered_형_command
 xstep!(x_push, Cfg { kind: 0, h: 2, d: 3, depth: [0, 0, 0, 1, 0, 0], ..CFG0 });
 // @h prop=C12 unwind=10 rec=2 cutfmt=1 uw=execute.0:2;same_output.0:25;exit_model.0:25;exit.0:25;push.0:17;write.0:17 timeout=14400 mem=24 tier=thorough kind=stretch what=execute():entered_항_with_a_heart:label_registered_at_the_new_position
 xstep!(x_add_heart, Cfg { kind: 1, h: 2, d: 4, area: 1, npts: 0, depth: [0, 0, 0, 2, 0, 0], ..CFG0 });
 // @h prop=C12 unwind=10 rec=2 cutfmt=1 uw=execute.0:2;same_output.0:25;exit_model.0:25;exit.0:25;push.0:17;write.0:17 timeout=14400 mem=24 tier=thorough kind=stretch what=execute():entered_흑_with_white_heart_and_no_jump_source
 xstep!(x_dup_white, Cfg { kind: 5, h: 1, d: 4, area: 2, latest: false, depth: [0, 0, 0, 1, 0, 0], ..CFG0 });
-// @h prop=C12 unwind=10 rec=2 cutfmt=1 uw=execute.0:2;same_output.0:25;exit_model.0:25;exit.0:25;push.0:17;write.0:17 timeout=1200 what=execute():entered_command_that_exits_through_stack_1
+// @h prop=C12 unwind=10 rec=2 cutfmt=1 uw=execute.0:2;same_output.0:25;exit_model.0:25;exit.0:25;push.0:17;write.0:17 timeout=3600 what=execute():entered_command_that_exits_through_stack_1
 xstep!(x_exit, Cfg { kind: 1, h: 1, d: 3, cur: 1, depth: [0, 0, 0, 1, 0, 0], ..CFG0 });
-// @h prop=C12 unwind=10 rec=2 cutfmt=1 uw=execute.0:2;same_output.0:25;exit_model.0:25;exit.0:25;push.0:17;write.0:17 timeout=1200 kind=twin
+// @h prop=C12 unwind=10 rec=2 cutfmt=1 uw=execute.0:2;same_output.0:25;exit_model.0:25;exit.0:25;push.0:17;write.0:17 timeout=3600 kind=twin
 #[cfg_attr(kani, kani::proof)]
 #[cfg_attr(kani, kani::stub(Num::add, m_num_add))]
 #[cfg_attr(kani, kani::stub(Num::mul, m_num_mul))]
@@ -876,33 +876,33 @@ pub fn twin_exec() {
 }
 
 // ---- additional grid points (thorough tier) ----
-// @h prop=C01 unwind=10 rec=2 cutfmt=1 uw=same_output.0:25;exit_model.0:25;exit.0:25;push.0:17;write.0:17 timeout=900 what=항_with_stack_4_selected,target_5
+// @h prop=C01 unwind=10 rec=2 cutfmt=1 uw=same_output.0:25;exit_model.0:25;exit.0:25;push.0:17;write.0:17 timeout=2700 what=항_with_stack_4_selected,target_5
 step!(t_add2_c4, Cfg { kind: 1, h: 2, d: 5, cur: 4, depth: [0, 0, 0, 1, 2, 1], ..CFG0 });
-// @h prop=C01 unwind=10 rec=2 cutfmt=1 uw=same_output.0:25;exit_model.0:25;exit.0:25;push.0:17;write.0:17 timeout=900 what=흣_with_stack_5_selected,target_3
+// @h prop=C01 unwind=10 rec=2 cutfmt=1 uw=same_output.0:25;exit_model.0:25;exit.0:25;push.0:17;write.0:17 timeout=2700 what=흣_with_stack_5_selected,target_3
 step!(t_neg2_c5, Cfg { kind: 3, h: 2, d: 3, cur: 5, depth: [0, 0, 0, 1, 0, 2], ..CFG0 });
-// @h prop=C01 unwind=10 rec=2 cutfmt=1 uw=same_output.0:25;exit_model.0:25;exit.0:25;push.0:17;write.0:17 timeout=900 what=항_target_0:value_stored_on_the_input_buffer(no_output,no_read)
+// @h prop=C01 unwind=10 rec=2 cutfmt=1 uw=same_output.0:25;exit_model.0:25;exit.0:25;push.0:17;write.0:17 timeout=2700 what=항_target_0:value_stored_on_the_input_buffer(no_output,no_read)
 step!(t_add_to0, Cfg { kind: 1, h: 1, d: 0, depth: [1, 0, 0, 1, 0, 0], ..CFG0 });
-// @h prop=C01 unwind=10 rec=2 cutfmt=1 uw=same_output.0:25;exit_model.0:25;exit.0:25;push.0:17;write.0:17 timeout=900 what=흑_to_stack_0:copies_pushed_onto_the_input_buffer,stdin_selected
+// @h prop=C01 unwind=10 rec=2 cutfmt=1 uw=same_output.0:25;exit_model.0:25;exit.0:25;push.0:17;write.0:17 timeout=2700 what=흑_to_stack_0:copies_pushed_onto_the_input_buffer,stdin_selected
 step!(t_dup_to0, Cfg { kind: 5, h: 2, d: 0, depth: [0, 0, 0, 1, 0, 0], ..CFG0 });
-// @h prop=C01 unwind=10 rec=2 cutfmt=1 uw=same_output.0:25;exit_model.0:25;exit.0:25;push.0:17;write.0:17 timeout=900 what=핫_with_small_fractions
+// @h prop=C01 unwind=10 rec=2 cutfmt=1 uw=same_output.0:25;exit_model.0:25;exit.0:25;push.0:17;write.0:17 timeout=2700 what=핫_with_small_fractions
 step!(t_mul2_frac, Cfg { kind: 2, h: 2, d: 4, dom: Dom::Frac, depth: [0, 0, 0, 2, 0, 0], ..CFG0 });
-// @h prop=C01 unwind=10 rec=2 cutfmt=1 uw=same_output.0:25;exit_model.0:25;exit.0:25;push.0:17;write.0:17 timeout=900 what=항_with_small_fractions
+// @h prop=C01 unwind=10 rec=2 cutfmt=1 uw=same_output.0:25;exit_model.0:25;exit.0:25;push.0:17;write.0:17 timeout=2700 what=항_with_small_fractions
 step!(t_add2_frac, Cfg { kind: 1, h: 2, d: 4, dom: Dom::Frac, depth: [0, 0, 0, 2, 0, 0], ..CFG0 });
-// @h prop=C01 unwind=10 rec=2 cutfmt=1 uw=same_output.0:25;exit_model.0:25;exit.0:25;push.0:17;write.0:17 timeout=900 what=흡_of_an_integer(0->NaN,negatives)
+// @h prop=C01 unwind=10 rec=2 cutfmt=1 uw=same_output.0:25;exit_model.0:25;exit.0:25;push.0:17;write.0:17 timeout=2700 what=흡_of_an_integer(0->NaN,negatives)
 step!(t_inv1_int, Cfg { kind: 4, h: 1, d: 4, depth: [0, 0, 0, 1, 0, 0], ..CFG0 });
-// @h prop=C01 unwind=10 rec=2 cutfmt=1 uw=same_output.0:25;exit_model.0:25;exit.0:25;push.0:17;write.0:17 timeout=900 what=형_with_heart,stack_4_selected,2_label_entries
+// @h prop=C01 unwind=10 rec=2 cutfmt=1 uw=same_output.0:25;exit_model.0:25;exit.0:25;push.0:17;write.0:17 timeout=2700 what=형_with_heart,stack_4_selected,2_label_entries
 step!(t_push_heart_c4, Cfg { kind: 0, h: 3, d: 2, cur: 4, area: 1, npts: 2, depth: [0, 0, 0, 0, 1, 0], ..CFG0 });
-// @h prop=C01 unwind=10 rec=3 cutfmt=1 uw=same_output.0:25;exit_model.0:25;exit.0:25;push.0:17;write.0:17 timeout=900 what=항_then_!_on_the_emptied_stack(NaN->right)
+// @h prop=C01 unwind=10 rec=3 cutfmt=1 uw=same_output.0:25;exit_model.0:25;exit.0:25;push.0:17;write.0:17 timeout=2700 what=항_then_!_on_the_emptied_stack(NaN->right)
 step!(t_e_empty, Cfg { kind: 1, h: 1, d: 4, area: 4, depth: [0, 0, 0, 1, 0, 0], ..CFG0 });
-// @h prop=C01 unwind=10 rec=4 cutfmt=1 uw=same_output.0:25;exit_model.0:25;exit.0:25;push.0:17;write.0:17 timeout=900 tier=thorough what=_?[h?white]_three_deep_stack
+// @h prop=C01 unwind=10 rec=4 cutfmt=1 uw=same_output.0:25;exit_model.0:25;exit.0:25;push.0:17;write.0:17 timeout=2700 tier=thorough what=_?[h?white]_three_deep_stack
 step!(t_q_white, Cfg { kind: 0, h: 2, d: 2, area: 6, latest: true, depth: [0, 0, 0, 3, 0, 0], ..CFG0 });
-// @h prop=C14 unwind=10 rec=2 cutfmt=1 uw=same_output.0:25;exit_model.0:25;exit.0:25;push.0:17;write.0:17 timeout=900 what=line_of_two_3-byte_characters
+// @h prop=C14 unwind=10 rec=2 cutfmt=1 uw=same_output.0:25;exit_model.0:25;exit.0:25;push.0:17;write.0:17 timeout=2700 what=line_of_two_3-byte_characters
 step!(u_in_33, Cfg { kind: 1, h: 1, d: 3, cur: 0, line: Some(2), classes: [3, 3, 1, 1], depth: [0, 0, 0, 0, 0, 0], ..CFG0 });
-// @h prop=C14 unwind=10 rec=2 cutfmt=1 uw=same_output.0:25;exit_model.0:25;exit.0:25;push.0:17;write.0:17 timeout=900 what=line_of_1-byte+4-byte
+// @h prop=C14 unwind=10 rec=2 cutfmt=1 uw=same_output.0:25;exit_model.0:25;exit.0:25;push.0:17;write.0:17 timeout=2700 what=line_of_1-byte+4-byte
 step!(u_in_14, Cfg { kind: 1, h: 1, d: 3, cur: 0, line: Some(2), classes: [1, 4, 1, 1], depth: [0, 0, 0, 0, 0, 0], ..CFG0 });
-// @h prop=C14 unwind=10 rec=2 cutfmt=1 uw=same_output.0:25;exit_model.0:25;exit.0:25;push.0:17;write.0:17 timeout=900 what=two_buffered_characters:popped_in_order,no_read
+// @h prop=C14 unwind=10 rec=2 cutfmt=1 uw=same_output.0:25;exit_model.0:25;exit.0:25;push.0:17;write.0:17 timeout=2700 what=two_buffered_characters:popped_in_order,no_read
 step!(u_in_2_buffered, Cfg { kind: 1, h: 1, d: 3, cur: 0, line: Some(1), classes: [2, 1, 1, 1], depth: [2, 0, 0, 0, 0, 0], ..CFG0 });
-// @h prop=C14 unwind=10 rec=2 cutfmt=num uw=same_output.0:25;exit_model.0:25;exit.0:25;push.0:17;write.0:17 timeout=900 tier=thorough what=non-negative_fraction_to_stdout:floor_is_the_code_point
+// @h prop=C14 unwind=10 rec=2 cutfmt=num uw=same_output.0:25;exit_model.0:25;exit.0:25;push.0:17;write.0:17 timeout=2700 tier=thorough what=non-negative_fraction_to_stdout:floor_is_the_code_point
 step!(u_out_frac, Cfg { kind: 1, h: 1, d: 1, dom: Dom::ScalarFrac, depth: [0, 0, 0, 1, 0, 0], ..CFG0 });
 
 // ===========================================================================
@@ -948,11 +948,11 @@ macro_rules! display {
         }
     };
 }
-// @h prop=C06 unwind=10 cutfmt=num uw=write.0:17;display_check.0:17 timeout=900 mem=12 stubs=BigNum::to_string_base->one-digit_model what=Display_of_NaN(1/0_and_-1/0)=fixed_NaN_text
+// @h prop=C06 unwind=10 cutfmt=num uw=write.0:17;display_check.0:17 timeout=2700 mem=12 stubs=BigNum::to_string_base->one-digit_model what=Display_of_NaN(1/0_and_-1/0)=fixed_NaN_text
 display!(display_nan, 0);
-// @h prop=C06 unwind=10 cutfmt=num uw=write.0:17 timeout=900 mem=12 stubs=BigNum::to_string_base->one-digit_model what=Display_of_an_integer:no_denominator
+// @h prop=C06 unwind=10 cutfmt=num uw=write.0:17 timeout=2700 mem=12 stubs=BigNum::to_string_base->one-digit_model what=Display_of_an_integer:no_denominator
 display!(display_int, 1);
-// @h prop=C06 unwind=10 cutfmt=num uw=write.0:17 timeout=900 mem=12 stubs=BigNum::to_string_base->one-digit_model what=Display_of_a_fraction:n/d
+// @h prop=C06 unwind=10 cutfmt=num uw=write.0:17 timeout=2700 mem=12 stubs=BigNum::to_string_base->one-digit_model what=Display_of_a_fraction:n/d
 display!(display_frac, 2);
 
 
@@ -1064,49 +1064,49 @@ pub fn spec_selftest() {
     println!("SPEC-SELFTEST: {} programs agree, {} skipped (exceed the definition's fixed arrays)", ran, skipped);
 }
 
-// @h prop=C01 unwind=10 rec=2 cutfmt=1 uw=same_output.0:25;exit_model.0:25;exit.0:25;push.0:17;write.0:17 timeout=1200 what=핫_with_zero_dots:product_goes_to_stack_0(the_input_buffer)
+// @h prop=C01 unwind=10 rec=2 cutfmt=1 uw=same_output.0:25;exit_model.0:25;exit.0:25;push.0:17;write.0:17 timeout=3600 what=핫_with_zero_dots:product_goes_to_stack_0(the_input_buffer)
 step!(t_mul_to0, Cfg { kind: 2, h: 2, d: 0, depth: [1, 0, 0, 2, 0, 0], ..CFG0 });
-// @h prop=C01 unwind=10 rec=2 cutfmt=1 uw=same_output.0:25;exit_model.0:25;exit.0:25;push.0:17;write.0:17 timeout=1200 what=흣_with_zero_dots:sum_goes_to_stack_0
+// @h prop=C01 unwind=10 rec=2 cutfmt=1 uw=same_output.0:25;exit_model.0:25;exit.0:25;push.0:17;write.0:17 timeout=3600 what=흣_with_zero_dots:sum_goes_to_stack_0
 step!(t_neg_to0, Cfg { kind: 3, h: 1, d: 0, depth: [0, 0, 0, 1, 0, 0], ..CFG0 });
 
 // ---- pairwise grid over (kind, operands, target, area, selected stack): thorough tier, stretch ----
-// @h prop=C01 unwind=10 rec=2 cutfmt=1 uw=same_output.0:25;exit_model.0:25;exit.0:25;push.0:17;write.0:17 timeout=1800 tier=thorough kind=stretch what=pairwise_grid:흑_h=3_target=3_area=heart_selected=3
+// @h prop=C01 unwind=10 rec=2 cutfmt=1 uw=same_output.0:25;exit_model.0:25;exit.0:25;push.0:17;write.0:17 timeout=3600 tier=thorough kind=stretch what=pairwise_grid:흑_h=3_target=3_area=heart_selected=3
 step!(g_k5_h3_d3_a1_c3, Cfg { kind: 5, h: 3, d: 3, cur: 3, area: 1, npts: 1, dom: Dom::I8, depth: [0, 0, 0, 3, 0, 0], ..CFG0 });
-// @h prop=C01 unwind=10 rec=2 cutfmt=1 uw=same_output.0:25;exit_model.0:25;exit.0:25;push.0:17;write.0:17 timeout=1800 tier=thorough kind=stretch what=pairwise_grid:핫_h=1_target=4_area=none_selected=4
+// @h prop=C01 unwind=10 rec=2 cutfmt=1 uw=same_output.0:25;exit_model.0:25;exit.0:25;push.0:17;write.0:17 timeout=3600 tier=thorough kind=stretch what=pairwise_grid:핫_h=1_target=4_area=none_selected=4
 step!(g_k2_h1_d4_a0_c4, Cfg { kind: 2, h: 1, d: 4, cur: 4, area: 0, npts: 0, dom: Dom::Frac, depth: [0, 0, 0, 0, 1, 0], ..CFG0 });
-// @h prop=C01 unwind=10 rec=3 cutfmt=1 uw=same_output.0:25;exit_model.0:25;exit.0:25;push.0:17;write.0:17 timeout=1800 tier=thorough kind=stretch what=pairwise_grid:흡_h=2_target=0_area=!_selected=3
+// @h prop=C01 unwind=10 rec=3 cutfmt=1 uw=same_output.0:25;exit_model.0:25;exit.0:25;push.0:17;write.0:17 timeout=3600 tier=thorough kind=stretch what=pairwise_grid:흡_h=2_target=0_area=!_selected=3
 step!(g_k4_h2_d0_a4_c3, Cfg { kind: 4, h: 2, d: 0, cur: 3, area: 4, npts: 0, dom: Dom::Frac, depth: [0, 0, 0, 3, 0, 0], ..CFG0 });
-// @h prop=C01 unwind=10 rec=3 cutfmt=1 uw=same_output.0:25;exit_model.0:25;exit.0:25;push.0:17;write.0:17 timeout=1800 tier=thorough kind=stretch what=pairwise_grid:흣_h=2_target=3_area=?_selected=4
+// @h prop=C01 unwind=10 rec=3 cutfmt=1 uw=same_output.0:25;exit_model.0:25;exit.0:25;push.0:17;write.0:17 timeout=3600 tier=thorough kind=stretch what=pairwise_grid:흣_h=2_target=3_area=?_selected=4
 step!(g_k3_h2_d3_a3_c4, Cfg { kind: 3, h: 2, d: 3, cur: 4, area: 3, npts: 0, dom: Dom::I8, depth: [0, 0, 0, 1, 3, 0], ..CFG0 });
-// @h prop=C01 unwind=10 rec=3 cutfmt=1 uw=same_output.0:25;exit_model.0:25;exit.0:25;push.0:17;write.0:17 timeout=1800 tier=thorough kind=stretch what=pairwise_grid:항_h=1_target=0_area=?_selected=3
+// @h prop=C01 unwind=10 rec=3 cutfmt=1 uw=same_output.0:25;exit_model.0:25;exit.0:25;push.0:17;write.0:17 timeout=3600 tier=thorough kind=stretch what=pairwise_grid:항_h=1_target=0_area=?_selected=3
 step!(g_k1_h1_d0_a3_c3, Cfg { kind: 1, h: 1, d: 0, cur: 3, area: 3, npts: 0, dom: Dom::I8, depth: [0, 0, 0, 2, 0, 0], ..CFG0 });
-// @h prop=C01 unwind=10 rec=3 cutfmt=1 uw=same_output.0:25;exit_model.0:25;exit.0:25;push.0:17;write.0:17 timeout=1800 tier=thorough kind=stretch what=pairwise_grid:항_h=3_target=4_area=!_selected=4
+// @h prop=C01 unwind=10 rec=3 cutfmt=1 uw=same_output.0:25;exit_model.0:25;exit.0:25;push.0:17;write.0:17 timeout=3600 tier=thorough kind=stretch what=pairwise_grid:항_h=3_target=4_area=!_selected=4
 step!(g_k1_h3_d4_a4_c4, Cfg { kind: 1, h: 3, d: 4, cur: 4, area: 4, npts: 0, dom: Dom::I8, depth: [0, 0, 0, 0, 3, 0], ..CFG0 });
-// @h prop=C01 unwind=10 rec=2 cutfmt=1 uw=same_output.0:25;exit_model.0:25;exit.0:25;push.0:17;write.0:17 timeout=1800 tier=thorough kind=stretch what=pairwise_grid:흣_h=3_target=0_area=none_selected=3
+// @h prop=C01 unwind=10 rec=2 cutfmt=1 uw=same_output.0:25;exit_model.0:25;exit.0:25;push.0:17;write.0:17 timeout=3600 tier=thorough kind=stretch what=pairwise_grid:흣_h=3_target=0_area=none_selected=3
 step!(g_k3_h3_d0_a0_c3, Cfg { kind: 3, h: 3, d: 0, cur: 3, area: 0, npts: 0, dom: Dom::I8, depth: [0, 0, 0, 3, 0, 0], ..CFG0 });
-// @h prop=C01 unwind=10 rec=2 cutfmt=1 uw=same_output.0:25;exit_model.0:25;exit.0:25;push.0:17;write.0:17 timeout=1800 tier=thorough kind=stretch what=pairwise_grid:흡_h=1_target=4_area=heart_selected=4
+// @h prop=C01 unwind=10 rec=2 cutfmt=1 uw=same_output.0:25;exit_model.0:25;exit.0:25;push.0:17;write.0:17 timeout=3600 tier=thorough kind=stretch what=pairwise_grid:흡_h=1_target=4_area=heart_selected=4
 step!(g_k4_h1_d4_a1_c4, Cfg { kind: 4, h: 1, d: 4, cur: 4, area: 1, npts: 1, dom: Dom::Frac, depth: [0, 0, 0, 0, 1, 0], ..CFG0 });
-// @h prop=C01 unwind=10 rec=3 cutfmt=1 uw=same_output.0:25;exit_model.0:25;exit.0:25;push.0:17;write.0:17 timeout=1800 tier=thorough kind=stretch what=pairwise_grid:핫_h=1_target=3_area=!_selected=3
+// @h prop=C01 unwind=10 rec=3 cutfmt=1 uw=same_output.0:25;exit_model.0:25;exit.0:25;push.0:17;write.0:17 timeout=3600 tier=thorough kind=stretch what=pairwise_grid:핫_h=1_target=3_area=!_selected=3
 step!(g_k2_h1_d3_a4_c3, Cfg { kind: 2, h: 1, d: 3, cur: 3, area: 4, npts: 0, dom: Dom::Frac, depth: [0, 0, 0, 2, 0, 0], ..CFG0 });
-// @h prop=C01 unwind=10 rec=2 cutfmt=1 uw=same_output.0:25;exit_model.0:25;exit.0:25;push.0:17;write.0:17 timeout=1800 tier=thorough kind=stretch what=pairwise_grid:흑_h=2_target=4_area=none_selected=4
+// @h prop=C01 unwind=10 rec=2 cutfmt=1 uw=same_output.0:25;exit_model.0:25;exit.0:25;push.0:17;write.0:17 timeout=3600 tier=thorough kind=stretch what=pairwise_grid:흑_h=2_target=4_area=none_selected=4
 step!(g_k5_h2_d4_a0_c4, Cfg { kind: 5, h: 2, d: 4, cur: 4, area: 0, npts: 0, dom: Dom::I8, depth: [0, 0, 0, 0, 2, 0], ..CFG0 });
-// @h prop=C01 unwind=10 rec=2 cutfmt=1 uw=same_output.0:25;exit_model.0:25;exit.0:25;push.0:17;write.0:17 timeout=1800 tier=thorough kind=stretch what=pairwise_grid:핫_h=2_target=0_area=heart_selected=4
+// @h prop=C01 unwind=10 rec=2 cutfmt=1 uw=same_output.0:25;exit_model.0:25;exit.0:25;push.0:17;write.0:17 timeout=3600 tier=thorough kind=stretch what=pairwise_grid:핫_h=2_target=0_area=heart_selected=4
 step!(g_k2_h2_d0_a1_c4, Cfg { kind: 2, h: 2, d: 0, cur: 4, area: 1, npts: 1, dom: Dom::Frac, depth: [0, 0, 0, 0, 2, 0], ..CFG0 });
-// @h prop=C01 unwind=10 rec=3 cutfmt=1 uw=same_output.0:25;exit_model.0:25;exit.0:25;push.0:17;write.0:17 timeout=1800 tier=thorough kind=stretch what=pairwise_grid:흡_h=3_target=4_area=?_selected=3
+// @h prop=C01 unwind=10 rec=3 cutfmt=1 uw=same_output.0:25;exit_model.0:25;exit.0:25;push.0:17;write.0:17 timeout=3600 tier=thorough kind=stretch what=pairwise_grid:흡_h=3_target=4_area=?_selected=3
 step!(g_k4_h3_d4_a3_c3, Cfg { kind: 4, h: 3, d: 4, cur: 3, area: 3, npts: 0, dom: Dom::Frac, depth: [0, 0, 0, 3, 1, 0], ..CFG0 });
-// @h prop=C01 unwind=10 rec=2 cutfmt=1 uw=same_output.0:25;exit_model.0:25;exit.0:25;push.0:17;write.0:17 timeout=1800 tier=thorough kind=stretch what=pairwise_grid:항_h=2_target=3_area=none_selected=4
+// @h prop=C01 unwind=10 rec=2 cutfmt=1 uw=same_output.0:25;exit_model.0:25;exit.0:25;push.0:17;write.0:17 timeout=3600 tier=thorough kind=stretch what=pairwise_grid:항_h=2_target=3_area=none_selected=4
 step!(g_k1_h2_d3_a0_c4, Cfg { kind: 1, h: 2, d: 3, cur: 4, area: 0, npts: 0, dom: Dom::I8, depth: [0, 0, 0, 1, 2, 0], ..CFG0 });
-// @h prop=C01 unwind=10 rec=3 cutfmt=1 uw=same_output.0:25;exit_model.0:25;exit.0:25;push.0:17;write.0:17 timeout=1800 tier=thorough kind=stretch what=pairwise_grid:흣_h=1_target=4_area=!_selected=3
+// @h prop=C01 unwind=10 rec=3 cutfmt=1 uw=same_output.0:25;exit_model.0:25;exit.0:25;push.0:17;write.0:17 timeout=3600 tier=thorough kind=stretch what=pairwise_grid:흣_h=1_target=4_area=!_selected=3
 step!(g_k3_h1_d4_a4_c3, Cfg { kind: 3, h: 1, d: 4, cur: 3, area: 4, npts: 0, dom: Dom::I8, depth: [0, 0, 0, 2, 1, 0], ..CFG0 });
-// @h prop=C01 unwind=10 rec=3 cutfmt=1 uw=same_output.0:25;exit_model.0:25;exit.0:25;push.0:17;write.0:17 timeout=1800 tier=thorough kind=stretch what=pairwise_grid:흑_h=1_target=0_area=?_selected=4
+// @h prop=C01 unwind=10 rec=3 cutfmt=1 uw=same_output.0:25;exit_model.0:25;exit.0:25;push.0:17;write.0:17 timeout=3600 tier=thorough kind=stretch what=pairwise_grid:흑_h=1_target=0_area=?_selected=4
 step!(g_k5_h1_d0_a3_c4, Cfg { kind: 5, h: 1, d: 0, cur: 4, area: 3, npts: 0, dom: Dom::I8, depth: [0, 0, 0, 0, 2, 0], ..CFG0 });
-// @h prop=C01 unwind=10 rec=3 cutfmt=1 uw=same_output.0:25;exit_model.0:25;exit.0:25;push.0:17;write.0:17 timeout=1800 tier=thorough kind=stretch what=pairwise_grid:핫_h=3_target=0_area=?_selected=4
+// @h prop=C01 unwind=10 rec=3 cutfmt=1 uw=same_output.0:25;exit_model.0:25;exit.0:25;push.0:17;write.0:17 timeout=3600 tier=thorough kind=stretch what=pairwise_grid:핫_h=3_target=0_area=?_selected=4
 step!(g_k2_h3_d0_a3_c4, Cfg { kind: 2, h: 3, d: 0, cur: 4, area: 3, npts: 0, dom: Dom::Frac, depth: [0, 0, 0, 0, 3, 0], ..CFG0 });
-// @h prop=C01 unwind=10 rec=2 cutfmt=1 uw=same_output.0:25;exit_model.0:25;exit.0:25;push.0:17;write.0:17 timeout=1800 tier=thorough kind=stretch what=pairwise_grid:흡_h=1_target=3_area=none_selected=4
+// @h prop=C01 unwind=10 rec=2 cutfmt=1 uw=same_output.0:25;exit_model.0:25;exit.0:25;push.0:17;write.0:17 timeout=3600 tier=thorough kind=stretch what=pairwise_grid:흡_h=1_target=3_area=none_selected=4
 step!(g_k4_h1_d3_a0_c4, Cfg { kind: 4, h: 1, d: 3, cur: 4, area: 0, npts: 0, dom: Dom::Frac, depth: [0, 0, 0, 1, 1, 0], ..CFG0 });
-// @h prop=C01 unwind=10 rec=3 cutfmt=1 uw=same_output.0:25;exit_model.0:25;exit.0:25;push.0:17;write.0:17 timeout=1800 tier=thorough kind=stretch what=pairwise_grid:흑_h=1_target=3_area=!_selected=3
+// @h prop=C01 unwind=10 rec=3 cutfmt=1 uw=same_output.0:25;exit_model.0:25;exit.0:25;push.0:17;write.0:17 timeout=3600 tier=thorough kind=stretch what=pairwise_grid:흑_h=1_target=3_area=!_selected=3
 step!(g_k5_h1_d3_a4_c3, Cfg { kind: 5, h: 1, d: 3, cur: 3, area: 4, npts: 0, dom: Dom::I8, depth: [0, 0, 0, 2, 0, 0], ..CFG0 });
-// @h prop=C01 unwind=10 rec=2 cutfmt=1 uw=same_output.0:25;exit_model.0:25;exit.0:25;push.0:17;write.0:17 timeout=1800 tier=thorough kind=stretch what=pairwise_grid:항_h=2_target=3_area=heart_selected=3
+// @h prop=C01 unwind=10 rec=2 cutfmt=1 uw=same_output.0:25;exit_model.0:25;exit.0:25;push.0:17;write.0:17 timeout=3600 tier=thorough kind=stretch what=pairwise_grid:항_h=2_target=3_area=heart_selected=3
 step!(g_k1_h2_d3_a1_c3, Cfg { kind: 1, h: 2, d: 3, cur: 3, area: 1, npts: 1, dom: Dom::I8, depth: [0, 0, 0, 2, 0, 0], ..CFG0 });
-// @h prop=C01 unwind=10 rec=2 cutfmt=1 uw=same_output.0:25;exit_model.0:25;exit.0:25;push.0:17;write.0:17 timeout=1800 tier=thorough kind=stretch what=pairwise_grid:흣_h=3_target=0_area=heart_selected=4
+// @h prop=C01 unwind=10 rec=2 cutfmt=1 uw=same_output.0:25;exit_model.0:25;exit.0:25;push.0:17;write.0:17 timeout=3600 tier=thorough kind=stretch what=pairwise_grid:흣_h=3_target=0_area=heart_selected=4
 step!(g_k3_h3_d0_a1_c4, Cfg { kind: 3, h: 3, d: 0, cur: 4, area: 1, npts: 1, dom: Dom::I8, depth: [0, 0, 0, 0, 3, 0], ..CFG0 });
